@@ -226,7 +226,7 @@ func Runs[T any](s []T, same func(a, b T) bool) [][]T {
 
 // Shrink shrinks s's capacity by reallocating, if necessary, so that cap(s) <= len(s) + n.
 func Shrink[T any](s []T, n int) []T {
-	if cap(s) > len(s)+n {
+	if cap(s)-len(s) > n { // not cap(s) > len(s)+n: that sum overflows for a large n
 		x2 := make([]T, len(s)+n)
 		copy(x2, s)
 		return x2[:len(s)]
